@@ -98,6 +98,9 @@ Definition step_p (gs : list graph) (es : list engine) (q : query) : tok :=
       end
   | QFgiT t1 t2 i j ud fa a b d =>
       if N.eqb t1 t2 then (if fgi vf2b ud fa a b d (gnth gs i) (gnth gs j) then tbool true else tbool false) else tbool false
+  | QQpf h p na ea thr =>
+      L [tbool (quick_pre_filter na (gnth gs h) (gnth gs p) thr); tnat (length (find_all na ea thr false (gnth gs h) (gnth gs p)));
+         tnat (length (find_all na ea thr true (gnth gs h) (gnth gs p)))]
   end.
 
 Lemma pre_check_pure gs e hi pi c : cache_inv gs c ->
@@ -148,7 +151,7 @@ Qed.
 Lemma step_pure gs es q c : cache_inv gs c ->
   exists c', step vf2b enum gs es q c = (step_p gs es q, c') /\ cache_inv gs c'.
 Proof.
-  intros Hc. destruct q as [e i j|e h p|e h p|gm ch pa f ind nc ec names eattr|i j a b d|i j|i j ud fa a b d|fn ch pa o|r|mp e [i|] [j|]|t1 t2 i j ud fa a b d]; simpl.
+  intros Hc. destruct q as [e i j|e h p|e h p|gm ch pa f ind nc ec names eattr|i j a b d|i j|i j ud fa a b d|fn ch pa o|r|mp e [i|] [j|]|t1 t2 i j ud fa a b d|h p na ea thr]; simpl.
   - destruct (isomorphic_pure gs (enth es e) i j c Hc) as (c' & E & H'). rewrite E, (iso_trace_pure gs (enth es e) i j c Hc). exists c'. auto.
   - destruct (get_mappings_pure gs (enth es e) h p c Hc) as (c' & E & H'). rewrite E, (maps_trace_pure gs (enth es e) h p c Hc). exists c'. auto.
   - destruct (pre_check_pure gs (enth es e) h p c Hc) as (c' & E & H'). rewrite E. exists c'. auto.
@@ -161,6 +164,7 @@ Proof.
   - destruct mp.
     + destruct (get_mappings_pure gs (enth es e) i j c Hc) as (c' & E & H'). rewrite E. exists c'. auto.
     + destruct (isomorphic_pure gs (enth es e) i j c Hc) as (c' & E & H'). rewrite E. exists c'. auto.
+  - exists c. auto.
   - exists c. auto.
   - exists c. auto.
   - exists c. auto.
